@@ -3155,7 +3155,7 @@ class TLSConnection(TLSRecordLayer):
                 ee_extensions.append(ext)
 
         alpn_ext = clientHello.getExtension(ExtensionType.alpn)
-        if alpn_ext:
+        if alpn_ext and srv_alpns:
             # error handling was done when receiving ClientHello
             matched = [i for i in alpn_ext.protocol_names if i in srv_alpns]
             if matched:
